@@ -81,7 +81,7 @@ fn compare(a: &Outcome, b: &Outcome, cross_family: bool, radix: usize) -> Result
 }
 
 fn run_on(be: Be, c: &OpCase) -> Outcome {
-    crate::with_backend!(be, c.log_n, |m| exec(m, c, 0, ScratchMode::Roomy))
+    pzv_be::with_backend!(be, c.log_n, |m| exec(m, c, 0, ScratchMode::Roomy))
 }
 
 pub fn test(c0: &OpCase) -> Verdict {
